@@ -484,6 +484,8 @@ class Run(object):
             return And(Not(v.isnone), self.truth(st, v.val))
         if isinstance(v, ObjV):
             return TRUE
+        if isinstance(v, FuncV):
+            return TRUE  # a function or bound method object is always true
         if isinstance(v, RecV):
             return Or(*[p for p, x in v.fields.values()])
         raise Unsupported("truth of %r" % (v,))
@@ -646,6 +648,12 @@ class Run(object):
             return ListV(self.new_cell(st, Select(arr, obj.term), [key]), ty.arg)
         if ty.kind == "opt":
             isn = Select(st.heap[hk + "?"], obj.term)
+            if ty.arg.kind == "list":
+                # the list inside an optional field is the field's own list: mutations through it are writes to the field
+                for cid, (val, backing) in st.cells.items():
+                    if key in backing:
+                        return OptV(isn, ListV(cid, ty.arg.arg))
+                return OptV(isn, ListV(self.new_cell(st, Select(arr, obj.term), [key]), ty.arg.arg))
             return OptV(isn, self.wrap(st, Select(arr, obj.term), ty.arg))
         return self.wrap(st, Select(arr, obj.term), ty)
 
@@ -1010,6 +1018,11 @@ class Run(object):
         raise Unsupported("is on %r,%r" % (a, b))
 
     def equal(self, st, a, b):
+        # an optional equals a plain value iff it is not None and its content equals it
+        if isinstance(a, OptV) and not isinstance(b, (OptV, NoneV)):
+            return And(Not(a.isnone), self.equal(st, a.val, b))
+        if isinstance(b, OptV) and not isinstance(a, (OptV, NoneV)):
+            return And(Not(b.isnone), self.equal(st, a, b.val))
         if isinstance(a, T) and isinstance(b, T):
             if a.sort != b.sort:
                 if {a.sort, b.sort} == {INT, BOOL}:
@@ -1213,6 +1226,8 @@ class Run(object):
                 self.old_state = saved
             if isinstance(v, ListV):
                 return ListV(self.new_cell(st, o2.cells[v.cell][0]), v.elem)
+            if isinstance(v, OptV) and isinstance(v.val, ListV):
+                return OptV(v.isnone, ListV(self.new_cell(st, o2.cells[v.val.cell][0]), v.val.elem))
             return v
         if name == "implies":
             a = self.truth(st, self.ev(node.args[0], st))
@@ -2022,9 +2037,13 @@ class Run(object):
         return [Completion("raise", st, exc=exc)]
 
     def st_Assign(self, s, st):
-        v = self.ev(s.value, st)
-        if isinstance(v, ListV) and st.cells[v.cell][0] is None and len(s.targets) == 1 and isinstance(s.targets[0], ast.Name):
-            ety = self.local_elem_type(s.targets[0].id)
+        if isinstance(s.value, ast.Dict) and not s.value.keys and len(s.targets) == 1 and isinstance(s.targets[0], ast.Name) and s.targets[0].id in self.contract.get("record_locals", []) and not self.engine.inline_stack:
+            # `name = {}` for a local the contract declares a record (string-keyed, keys known statically)
+            v = RecV({})
+        else:
+            v = self.ev(s.value, st)
+        if isinstance(v, ListV) and st.cells[v.cell][0] is None and len(s.targets) == 1 and isinstance(s.targets[0], (ast.Name, ast.Subscript)):
+            ety = self.local_elem_type(ast.unparse(s.targets[0]))
             if ety is not None:
                 st.cells[v.cell] = (Empty(ety.sort()), st.cells[v.cell][1])
                 v.elem = ety
@@ -2309,7 +2328,7 @@ class Run(object):
                 continue
             if isinstance(v, ListV) and v.cell not in hav_cells:
                 val = st.cells[v.cell][0]
-                ety = v.elem or (self.local_elem_type(mexpr) if mexpr.isidentifier() else None)
+                ety = v.elem or self.local_elem_type(mexpr)
                 if val is None and ety is None:
                     raise Unsupported("list %s mutated in loop has no known element type (declare locals)" % mexpr)
                 if v.elem is None:
